@@ -1,27 +1,147 @@
-use narwhal_protocol::*;
-use std::io::Cursor;
-fn rt(m: Message) {
-  let mut buf = vec![0u8; 4096];
-  match serialize(&m, &mut buf) {
-    Ok(n) => {
-      let line = &buf[..n-1];
-      let r = std::panic::catch_unwind(|| deserialize(Cursor::new(line)));
-      match r { Ok(Ok(m2)) => println!("{:?} -> {:?} => {}", String::from_utf8_lossy(line), m2, if m2==m {"SAME"} else {"DIFF"}),
-        Ok(Err(e)) => println!("{:?} => ERR {}", String::from_utf8_lossy(line), e),
-        Err(_) => println!("{:?} => PANIC", String::from_utf8_lossy(line)) }
-    }
-    Err(e) => println!("encode err {e}"),
-  }
+//! `nvh` — verification harness for narwhal: translator + correspondence suites.
+//! Usage: nvh <suite> --seed N --cases N --out FILE [--steps N] [--only CASE]
+mod oracle;
+mod rng;
+mod srv;
+mod srv_suite;
+mod translate;
+
+use std::collections::BTreeMap;
+use std::fmt::Write as _;
+
+use rng::Rng;
+
+pub struct Args {
+  pub suite: String,
+  pub seed: u64,
+  pub cases: usize,
+  pub steps: usize,
+  pub out: String,
+  pub only: Option<usize>,
+  pub extra: BTreeMap<String, String>,
 }
-fn main(){
-  rt(Message::Auth(AuthParameters{token: "\\".into()}));
-  rt(Message::Auth(AuthParameters{token: "a\\".into()}));
-  rt(Message::Auth(AuthParameters{token: "a b\\".into()}));
-  rt(Message::Auth(AuthParameters{token: "\\\"x".into()}));
-  rt(Message::JoinChannelAck(JoinChannelAckParameters{id:1, channel: "".into()}));
-  rt(Message::Auth(AuthParameters{token: "a\0b".into()}));
-  rt(Message::Auth(AuthParameters{token: "a\nb".into()}));
-  rt(Message::Ping(PingParameters{id:0}));
-  rt(Message::Error(ErrorParameters{id:None, reason:"X".into(), detail: Some("a b".into())}));
-  let r = std::panic::catch_unwind(|| deserialize(Cursor::new(&b"PING id:0=1"[..]))); println!("{:?}", r.map(|x| x.map_err(|e| e.to_string())));
+
+fn parse_args() -> Args {
+  let av: Vec<String> = std::env::args().collect();
+  let mut a = Args {
+    suite: av.get(1).cloned().unwrap_or_default(),
+    seed: 1,
+    cases: 100,
+    steps: 40,
+    out: "/dev/stdout".into(),
+    only: None,
+    extra: BTreeMap::new(),
+  };
+  let mut i = 2;
+  while i + 1 < av.len() + 1 && i < av.len() {
+    let k = av[i].trim_start_matches("--").to_string();
+    let v = av.get(i + 1).cloned().unwrap_or_default();
+    match k.as_str() {
+      "seed" => a.seed = v.parse().unwrap_or(1),
+      "cases" => a.cases = v.parse().unwrap_or(100),
+      "steps" => a.steps = v.parse().unwrap_or(40),
+      "out" => a.out = v,
+      "only" => a.only = v.parse().ok(),
+      _ => {
+        a.extra.insert(k, v);
+      },
+    }
+    i += 2;
+  }
+  a
+}
+
+fn local_rt() -> (tokio::runtime::Runtime, tokio::task::LocalSet) {
+  let rt = tokio::runtime::Builder::new_current_thread().enable_all().start_paused(true).build().unwrap();
+  (rt, tokio::task::LocalSet::new())
+}
+
+/// JSON string escaping for the small stats files
+pub fn js(s: &str) -> String {
+  let mut o = String::from("\"");
+  for c in s.chars() {
+    match c {
+      '"' => o.push_str("\\\""),
+      '\\' => o.push_str("\\\\"),
+      '\n' => o.push_str("\\n"),
+      '\r' => o.push_str("\\r"),
+      '\t' => o.push_str("\\t"),
+      c if (c as u32) < 0x20 => {
+        let _ = write!(o, "\\u{:04x}", c as u32);
+      },
+      c => o.push(c),
+    }
+  }
+  o.push('"');
+  o
+}
+
+pub fn js_map(m: &BTreeMap<String, u64>) -> String {
+  let items: Vec<String> = m.iter().map(|(k, v)| format!("{}:{}", js(k), v)).collect();
+  format!("{{{}}}", items.join(","))
+}
+
+fn suite_srv(a: &Args) {
+  let (rt, local) = local_rt();
+  let mut out = String::new();
+  let mut stats: BTreeMap<String, u64> = BTreeMap::new();
+  let mut seen: BTreeMap<String, u64> = BTreeMap::new();
+  let mut oracle_failures: Vec<(usize, String)> = Vec::new();
+  let mut steps_total = 0usize;
+  let mut master = Rng::new(a.seed);
+  for case in 0..a.cases {
+    let mut crng = master.fork();
+    if a.only.is_some_and(|o| o != case) {
+      continue;
+    }
+    let mode = a.extra.get("mode").cloned().unwrap_or_else(|| "random".into());
+    let cfg = srv_suite::scenario_cfg(&mut crng, &mode);
+    let steps = a.steps;
+    let cfg2 = cfg.clone();
+    let (res, st) = local.block_on(&rt, async move { srv_suite::run_case(cfg2, crng, steps, &mode).await });
+    let _ = writeln!(out, "case {case}");
+    let _ = writeln!(out, "{}", cfg.line());
+    out.push_str(&res.transcript);
+    steps_total += res.steps;
+    for (k, v) in st {
+      *stats.entry(k).or_insert(0) += v;
+    }
+    for (k, v) in res.seen {
+      *seen.entry(k).or_insert(0) += v;
+    }
+    for f in res.oracle_failures {
+      oracle_failures.push((case, f));
+    }
+  }
+  for (case, f) in &oracle_failures {
+    let _ = writeln!(out, "oracle-failure case={case} {f}");
+  }
+  let _ = writeln!(
+    out,
+    "stats {{\"suite\":\"srv\",\"seed\":{},\"cases\":{},\"steps\":{},\"ops\":{},\"frames\":{},\"oracle_failures\":{}}}",
+    a.seed,
+    a.cases,
+    steps_total,
+    js_map(&stats),
+    js_map(&seen),
+    oracle_failures.len()
+  );
+  std::fs::write(&a.out, out).expect("write transcript");
+}
+
+fn main() {
+  let a = parse_args();
+  match a.suite.as_str() {
+    "srv" => suite_srv(&a),
+    "translate" => {
+      let dir = a.extra.get("lean").cloned().unwrap_or_else(|| "/verif/lean".into());
+      for (f, ch) in translate::run(&dir) {
+        println!("generated {f}{}", if ch { " (changed)" } else { "" });
+      }
+    },
+    other => {
+      eprintln!("unknown suite {other:?}");
+      std::process::exit(2);
+    },
+  }
 }
